@@ -13,6 +13,8 @@ static Op fault_op(Rng& rng, const std::string& name, const std::string& ext) {
   Op f = fop("", "fault"); f.set("name", name); f.set("ext", ext);
   static const char* kinds[] = {"truncate", "truncate", "truncate", "tearzero", "flipbit", "flipbit", "setbyte", "nul", "dupline", "dropline", "longtoken", "longline", "hugeexp", "gz", "gztrunc", "empty", "lose", "insert"};
   std::string k = kinds[rng.below(sizeof kinds / sizeof kinds[0])];
+  // record-structured files (basis, settings): losing, repeating or corrupting one record is the fault that keeps the file parseable
+  if ((ext == ".bas" || ext == ".set") && rng.chance(0.5)) k = rng.pick({std::string("dupline"), std::string("dropline"), std::string("dupline"), std::string("dropline"), std::string("setbyte")});
   f.set("fkind", k); f.seti("a", (long)rng.below(1 << 20));
   if (k == "flipbit") f.seti("b", rng.range(0, 7));
   if (k == "setbyte") f.seti("b", rng.pick({0, 9, 10, 13, 32, 45, 46, 58, 60, 61, 62, 43, 255, 69, 101, 47}));
@@ -28,7 +30,7 @@ Plan gen_file(uint64_t seed, const GenOpts& g) {
   const std::string& prop = g.prop;
   // scenario weights depend on the property that is being checked
   int sc;
-  if (prop == "C12") sc = 0; else if (prop == "C13") sc = rng.pick({1, 1, 1, 1, 2, 3}); else if (prop == "C14") sc = rng.pick({4, 4, 5}); else if (prop == "C15") sc = 6; else if (prop == "C04") sc = rng.pick({2, 4, 5});
+  if (prop == "C12") sc = 0; else if (prop == "C13") sc = rng.pick({1, 1, 1, 2, 2, 3}); else if (prop == "C14") sc = rng.pick({4, 4, 5}); else if (prop == "C15") sc = 6; else if (prop == "C04") sc = rng.pick({2, 4, 5});
   else sc = rng.range(0, 6);
   model::GenCfg gc; gc.klass = rng.pick({0, 0, 1, 1, 2, 3}); gc.maxRows = rng.range(1, 8); gc.maxCols = rng.range(1, 8);
   bool rational = (sc == 0 || sc == 1) && rng.chance(0.4);
